@@ -101,6 +101,7 @@ fn inputs<F: Scalar>(p: &Params, c: &Cfg) -> Data<F> {
     let pattern = p.get("pattern", -1);
     let wpat = p.get("wpat", -1);
     let (wmax, wlo) = (p.u("wmax", 2), p.get("wlo", 1));
+    let wdiv = p.get("wdiv", 1) as f32;
     let ysym: Vec<F> = if pattern < 0 { (0..c.n).map(|i| int::<F>(&format!("y{}", i), 0, c.classes as i64 - 1)).collect() } else { vec![] };
     let wsym: Vec<F> = if wpat == -2 { (0..c.n).map(|i| int::<F>(&format!("w{}", i), 0, wmax as i64 - 1)).collect() } else { vec![] };
     if p.get("distinct", 0) == 1 {
@@ -129,8 +130,9 @@ fn inputs<F: Scalar>(p: &Params, c: &Cfg) -> Data<F> {
     }
     let w = match wpat {
         -1 => None,
-        -2 => Some(wsym.iter().map(|v| (wlo + pick(*v, wmax) as i64) as f32).collect()),
-        code => Some(digits(code, wmax, c.n).into_iter().map(|k| (wlo + k as i64) as f32).collect()),
+        // `wdiv` > 1 gives fractional (non-dyadic for wdiv = 10) f32 weights: sums of them depend on the order
+        -2 => Some(wsym.iter().map(|v| (wlo + pick(*v, wmax) as i64) as f32 / wdiv).collect()),
+        code => Some(digits(code, wmax, c.n).into_iter().map(|k| (wlo + k as i64) as f32 / wdiv).collect()),
     };
     Data { x, y, w }
 }
